@@ -18,6 +18,7 @@ import (
 	"strconv"
 	"strings"
 	"sync"
+	"sync/atomic"
 	"syscall"
 	"testing"
 	"time"
@@ -81,15 +82,20 @@ type vfWiring struct {
 	udp      int
 	tcp      int
 	nreq     int
-	hosts    vfM // the two host tables of the configuration (service level, top level) when the case has any
-	keepCfg  vfM // keep-next-hop-route as written (YAML value and environment variable, lower-cased): TLC computes what it means
+	hosts    vfM   // the two host tables of the configuration (service level, top level) when the case has any
+	static   []vfM // the static routes of the configuration, in configuration order
+	keepCfg  vfM   // keep-next-hop-route as written (YAML value and environment variable, lower-cased): TLC computes what it means
 }
 
 func (w *vfWiring) reset(id string, recv bool, udp, tcp int) {
 	w.id, w.recv, w.udp, w.tcp = id, recv, udp, tcp
 	la := w.g.ip("10.0.0.1")
 	all := vfM{"p1.t1": vfM{"lid": "p1.t1", "proto": "UDP", "addr": la, "port": udp}, "p1.t2": vfM{"lid": "p1.t2", "proto": "TCP", "addr": la, "port": tcp}}
-	cfg := vfM{"keep": w.keep, "names": vfNameRecs(), "static": []vfM{}, "all": all,
+	static := w.static
+	if static == nil {
+		static = []vfM{}
+	}
+	cfg := vfM{"keep": w.keep, "names": vfNameRecs(), "static": static, "all": all,
 		"proxies": []vfM{{"trans": []string{"p1.t1", "p1.t2"}, "mustrr": false, "recv": recv}}}
 	if w.hosts != nil {
 		cfg["hosts"] = w.hosts
@@ -167,8 +173,14 @@ func (w *vfWiring) emit(cls, lid string, srcIP string, srcPort int, raw []byte, 
 		}
 	}
 	add(w.g.ip("10.0.0.1")) // the listener's own address is a literal too
+	tohost := "z.z"
+	for _, h := range in.Hdrs {
+		if h.Cls == "to" && len(h.Ents) > 0 {
+			tohost = h.Ents[0].Uri.Host
+		}
+	}
 	w.tr.Emit(vfM{"ev": "step", "case": w.id, "cls": cls, "pi": 1, "lid": lid, "src": vfM{"ip": srcIP, "port": srcPort}, "inmsg": in, "outs": outs,
-		"pool": []string{}, "rx": vfM{"sip": false, "abs": false}, "tohost": vfChars("z.z"), "resolv": rmap, "panic": "", "stuck": false, "learned_obs": vfM{}})
+		"pool": []string{}, "rx": vfM{"sip": false, "abs": false}, "tohost": vfChars(tohost), "resolv": rmap, "panic": "", "stuck": false, "learned_obs": vfM{}})
 }
 
 func TestVfWiring(t *testing.T) {
@@ -740,4 +752,239 @@ func TestVfTimeoutWiring(t *testing.T) {
 		ncase++
 	}
 	fmt.Printf("VF cases=%d events=%d\n", ncase, tr.n)
+}
+
+// TestVfRouteWiring: the static routes of the YAML configuration (C03 clause 2, C18's precedence) through
+// loadConfigFromReader + createPreConfigRoute + startProxy: overlapping wildcard destinations in several configuration
+// orders (alphabetical and not), an exact destination among them, several dests per entry; requests without Route
+// whose To host matches one, two or none of them arrive on the real UDP listener.  The trace carries the routes in
+// CONFIGURATION order; TLC (StaticOps through JudgeC03) says where each request must go.
+func TestVfRouteWiring(t *testing.T) {
+	tr := vfOpenTrace(t, "VERIF_TRACE")
+	defer tr.Close()
+	g := &vfGamma{base: vfIPBase(), rnd: vfRand(16)}
+	w := &vfWiring{t: t, tr: tr, g: g}
+	la := g.ip("10.0.0.1")
+	hops := []string{g.ip("10.0.1.4") + ":6001", g.ip("10.0.1.5") + ":6002", g.ip("10.0.1.6") + ":6003", g.ip("10.0.1.1") + ":5070"}
+	for i, h := range hops {
+		var p int
+		fmt.Sscanf(h[strings.LastIndexByte(h, ':')+1:], "%d", &p)
+		vfAllSinks.get(t, g.ip([]string{"10.0.1.4", "10.0.1.5", "10.0.1.6", "10.0.1.1"}[i]), p)
+	}
+	type ent struct {
+		dests []string
+		hop   int
+	}
+	tables := [][]ent{
+		{{[]string{"*.example.com"}, 0}, {[]string{"*.com"}, 1}, {[]string{"a.example.com"}, 2}},
+		{{[]string{"*.com"}, 1}, {[]string{"*.example.com"}, 0}, {[]string{"a.example.com"}, 2}},
+		{{[]string{"a.example.com"}, 2}, {[]string{"*.example.com", "*.com"}, 0}, {[]string{"*"}, 3}},
+		{{[]string{"*"}, 3}, {[]string{"*.com", "*.example.com"}, 1}},
+		{{[]string{"z*.example.com"}, 1}, {[]string{"*.example.com"}, 0}, {[]string{"b*.example.com"}, 2}},
+	}
+	tohosts := []string{"x.example.com", "a.example.com", "y.com", "zeta.example.com", "beta.example.com", "z.org", "example.com"}
+	ncase := 0
+	for ci, tb := range tables {
+		udp, tcp := vfFreePort(t, la), vfFreePort(t, la)
+		var y strings.Builder
+		fmt.Fprintf(&y, "proxies:\n- name: rw%d.example.net\n  listens:\n  - address: %s\n    udp-port: %d\n    tcp-port: %d\n  route:\n", ci, la, udp, tcp)
+		w.static = nil
+		for _, e := range tb {
+			fmt.Fprintf(&y, "  - dests:\n")
+			for _, d := range e.dests {
+				fmt.Fprintf(&y, "    - \"%s\"\n", d)
+				hp := hops[e.hop]
+				i := strings.LastIndexByte(hp, ':')
+				var p int
+				fmt.Sscanf(hp[i+1:], "%d", &p)
+				w.static = append(w.static, vfM{"pat": vfChars(d), "proto": "udp", "nhost": hp[:i], "nport": p})
+			}
+			fmt.Fprintf(&y, "    protocol: udp\n    nexthop: %s\n", hops[e.hop])
+		}
+		cfg, err := loadConfigFromReader(strings.NewReader(y.String()))
+		if err != nil {
+			t.Fatalf("VF-INFRA yaml: %v\n%s", err, y.String())
+		}
+		for _, pc := range cfg.Proxies {
+			if err := startProxy(pc, createPreConfigRoute(pc), createPreConfigHostResolver(cfg.Hosts, pc)); err != nil {
+				t.Fatalf("VF-INFRA startProxy: %v", err)
+			}
+		}
+		time.Sleep(30 * time.Millisecond)
+		w.keep = false
+		w.reset(fmt.Sprintf("routewiring%d", ci), true, udp, tcp)
+		cli, err := net.ListenUDP("udp", &net.UDPAddr{IP: net.ParseIP(g.ip("10.0.5.5")), Port: 0})
+		if err != nil {
+			t.Fatalf("VF-INFRA %v", err)
+		}
+		cport := cli.LocalAddr().(*net.UDPAddr).Port
+		for i, th := range tohosts {
+			hs := []vfHdr{{"Via", fmt.Sprintf("SIP/2.0/UDP %s:5062;branch=z9hG4bKrw%d-%d", g.ip("10.0.2.1"), ci, i)}, {"Max-Forwards", "70"}, {"From", "<sip:a@a.example>;tag=f"},
+				{"To", "<sip:b@" + th + ">"}, {"Call-ID", fmt.Sprintf("rw-%d-%d", ci, i)}, {"CSeq", "1 OPTIONS"}, {"Content-Length", "0"}}
+			raw := vfRender("OPTIONS sip:bob@elsewhere.example SIP/2.0", hs, nil)
+			vfAllSinks.pollAll()
+			cli.WriteToUDP(raw, &net.UDPAddr{IP: net.ParseIP(la), Port: udp})
+			w.emit(fmt.Sprintf("route-wiring table=%d to=%s", ci, th), "p1.t1", g.ip("10.0.5.5"), cport, raw, vfWaitSinks(1200*time.Millisecond))
+		}
+		cli.Close()
+		ncase++
+	}
+	w.static = nil
+	fmt.Printf("VF cases=%d events=%d\n", ncase, tr.n)
+}
+
+// TestVfStickyWire: C04 through the REAL UDP listener of a service started from YAML (receive goroutine, parser
+// goroutine, message loop).  A dialog is established through one of three real UDP backends; the backend's answer - sent
+// from its own socket - is followed back-to-back by datagrams of another user agent; then in-dialog requests of several
+// methods, from both parties' orientation, interleaved with unrelated requests, must all reach the answering backend.
+// Judged by Trace_Sticky (Focus C04) like the in-package histories.
+func TestVfStickyWire(t *testing.T) {
+	tr := vfOpenTrace(t, "VERIF_TRACE")
+	defer tr.Close()
+	g := &vfGamma{base: vfIPBase(), rnd: vfRand(18)}
+	la := g.ip("10.0.0.1")
+	backs := []string{g.ip("10.0.4.1") + ":5060", g.ip("10.0.4.2") + ":5060", g.ip("10.0.4.3") + ":5060"}
+	bsink := map[string]*vfSink{backs[0]: vfAllSinks.get(t, g.ip("10.0.4.1"), 5060), backs[1]: vfAllSinks.get(t, g.ip("10.0.4.2"), 5060), backs[2]: vfAllSinks.get(t, g.ip("10.0.4.3"), 5060)}
+	vfAllSinks.get(t, g.ip("10.0.5.5"), 5062)
+	vfAllSinks.get(t, g.ip("10.0.5.6"), 5062)
+	var nnext int64
+	vfSetHook(func(ev string, kv ...interface{}) {
+		if ev == "rr.next" {
+			atomic.AddInt64(&nnext, 1)
+		}
+	})
+	udp, tcp := vfFreePort(t, la), vfFreePort(t, la)
+	name := "sw.example.com"
+	y := fmt.Sprintf("proxies:\n- name: %s\n  listens:\n  - address: %s\n    udp-port: %d\n    tcp-port: %d\n    backends:\n    - udp://%s\n    - udp://%s\n    - udp://%s\n", name, la, udp, tcp, backs[0], backs[1], backs[2])
+	os.Unsetenv("DEFAULT_DIALOG_TIMEOUT")
+	cfg, err := loadConfigFromReader(strings.NewReader(y))
+	if err != nil {
+		t.Fatalf("VF-INFRA yaml: %v", err)
+	}
+	for _, pc := range cfg.Proxies {
+		if err := startProxy(pc, createPreConfigRoute(pc), createPreConfigHostResolver(cfg.Hosts, pc)); err != nil {
+			t.Fatalf("VF-INFRA startProxy: %v", err)
+		}
+	}
+	time.Sleep(50 * time.Millisecond)
+	cli, err := net.ListenUDP("udp", &net.UDPAddr{IP: net.ParseIP(g.ip("10.0.5.5")), Port: 0})
+	if err != nil {
+		t.Fatalf("VF-INFRA %v", err)
+	}
+	defer cli.Close()
+	noise, err := net.ListenUDP("udp", &net.UDPAddr{IP: net.ParseIP(g.ip("10.0.5.6")), Port: 0})
+	if err != nil {
+		t.Fatalf("VF-INFRA %v", err)
+	}
+	defer noise.Close()
+	cport, nport := cli.LocalAddr().(*net.UDPAddr).Port, noise.LocalAddr().(*net.UDPAddr).Port
+	to := &net.UDPAddr{IP: net.ParseIP(la), Port: udp}
+	nd := vfEnvInt("VERIF_NDIALOG", 12)
+	nbr := 0
+	for di := 0; di < nd; di++ {
+		id := fmt.Sprintf("stickywire%d", di)
+		tr.Emit(vfM{"ev": "reset", "case": id, "cfg": vfM{"backs": backs, "timeout_cfg": vfM{"yaml_present": false, "yaml": 0, "env_set": false, "env_numeric": false, "env": 0}}})
+		start := time.Now()
+		us := func() int { return vfUs(time.Since(start)) }
+		mkreq := func(src, method, cid, ft, fu, totag, tu string) []byte {
+			nbr++
+			hs := []vfHdr{{"Via", fmt.Sprintf("SIP/2.0/UDP %s:5062;branch=z9hG4bKsw%d", src, nbr)}, {"Max-Forwards", "70"},
+				{"From", "<" + fu + ">;tag=" + ft}, {"To", "<" + tu + ">" + totag}, {"Call-ID", cid}, {"CSeq", fmt.Sprintf("%d %s", nbr, method)}, {"Content-Length", "0"}}
+			return vfRender(method+" sip:service@"+name+" SIP/2.0", hs, nil)
+		}
+		// emit one step per message of a burst: what arrived at the backend sinks is attributed by Call-ID
+		emit := func(cls string, t0, t1 int, msgs [][]byte, srcs []vfM, got []vfRecv, pooledAll bool) {
+			for i, raw := range msgs {
+				in := vfAlpha(raw)
+				cid := ""
+				for _, h := range in.Hdrs {
+					if h.Cls == "callid" {
+						cid = h.Val
+					}
+				}
+				outs := []vfM{}
+				if in.Kind == "req" {
+					for _, rv := range got {
+						a := fmt.Sprintf("%s:%d", rv.ip, rv.port)
+						if _, ok := bsink[a]; !ok {
+							continue
+						}
+						rc := ""
+						for _, h := range vfAlpha(rv.raw).Hdrs {
+							if h.Cls == "callid" {
+								rc = h.Val
+							}
+						}
+						if rc == cid && vfAlpha(rv.raw).Start == in.Start {
+							outs = append(outs, vfM{"kind": "backend", "addr": a, "ip": rv.ip, "port": rv.port, "proto": rv.proto})
+						}
+					}
+				}
+				tr.Emit(vfM{"ev": "step", "case": id, "cls": cls, "t0": t0, "t1": t1, "src": srcs[i], "inmsg": in, "outs": outs,
+					"pooled": pooledAll, "expires": 0, "substcls": "", "mine": in.Kind == "req", "npool": 3, "panic": "", "stuck": false})
+			}
+		}
+		one := func(cls string, c *net.UDPConn, src vfM, raw []byte) []vfRecv {
+			vfAllSinks.pollAll()
+			atomic.StoreInt64(&nnext, 0)
+			t0 := us() - 1
+			c.WriteToUDP(raw, to)
+			got := vfWaitSinks(700 * time.Millisecond)
+			t1 := us() + 1
+			emit(cls, t0, t1, [][]byte{raw}, []vfM{src}, got, atomic.LoadInt64(&nnext) > 0)
+			return got
+		}
+		cliSrc, noiseSrc := vfM{"ip": g.ip("10.0.5.5"), "port": cport}, vfM{"ip": g.ip("10.0.5.6"), "port": nport}
+		cid, ft, fu, tu := fmt.Sprintf("sw-%d@%s", di, g.base), fmt.Sprintf("f%d", di), fmt.Sprintf("sip:a%d@a.example", di), "sip:service@"+name
+		got := one("sticky-wire initial INVITE", cli, cliSrc, mkreq(g.ip("10.0.5.5"), "INVITE", cid, ft, fu, "", tu))
+		holder := ""
+		var vias []string
+		for _, rv := range got {
+			a := fmt.Sprintf("%s:%d", rv.ip, rv.port)
+			if _, ok := bsink[a]; ok {
+				holder, vias = a, vfViaLines(rv.raw)
+			}
+		}
+		if holder == "" {
+			continue
+		}
+		var hs []vfHdr
+		for _, v := range vias {
+			hs = append(hs, vfHdr{"Via", v})
+		}
+		totag := fmt.Sprintf(";tag=b%d", di)
+		hs = append(hs, vfHdr{"From", "<" + fu + ">;tag=" + ft}, vfHdr{"To", "<" + tu + ">" + totag}, vfHdr{"Call-ID", cid}, vfHdr{"CSeq", "1 INVITE"}, vfHdr{"Content-Length", "0"})
+		ans := vfRender("SIP/2.0 200 OK", hs, nil)
+		// the answer from the backend's socket, and right behind it datagrams of another user agent
+		burst := [][]byte{ans}
+		srcs := []vfM{{"ip": holder[:strings.LastIndexByte(holder, ':')], "port": 5060}}
+		for k := 0; k < 3; k++ {
+			burst = append(burst, mkreq(g.ip("10.0.5.6"), "OPTIONS", fmt.Sprintf("sw-%d-n%d@%s", di, k, g.base), fmt.Sprintf("n%d", k), "sip:n@n.example", "", tu))
+			srcs = append(srcs, noiseSrc)
+		}
+		vfAllSinks.pollAll()
+		atomic.StoreInt64(&nnext, 0)
+		t0 := us() - 1
+		syscall.Sendto(bsink[holder].ufd, ans, 0, vfSockaddr(la, udp))
+		for _, b := range burst[1:] {
+			noise.WriteToUDP(b, to)
+		}
+		var all []vfRecv
+		for end := time.Now().Add(400 * time.Millisecond); time.Now().Before(end); time.Sleep(5 * time.Millisecond) {
+			all = append(all, vfAllSinks.pollAll()...)
+		}
+		t1 := us() + 1
+		emit("sticky-wire answer followed by another agent's datagrams", t0, t1, burst, srcs, all, atomic.LoadInt64(&nnext) >= 3)
+		for pi, m := range []string{"ACK", "INFO", "UPDATE", "BYE"} {
+			if pi%2 == 1 {
+				one("sticky-wire unrelated", noise, noiseSrc, mkreq(g.ip("10.0.5.6"), "OPTIONS", fmt.Sprintf("sw-%d-u%d@%s", di, pi, g.base), fmt.Sprintf("u%d", pi), "sip:n@n.example", "", tu))
+			}
+			if pi == 2 { // the other party's orientation: From / To swapped
+				one("sticky-wire in-dialog "+m+" (swapped)", cli, cliSrc, mkreq(g.ip("10.0.5.5"), m, cid, "b"+fmt.Sprint(di), tu, ";tag="+ft, fu))
+			} else {
+				one("sticky-wire in-dialog "+m, cli, cliSrc, mkreq(g.ip("10.0.5.5"), m, cid, ft, fu, totag, tu))
+			}
+		}
+	}
+	fmt.Printf("VF cases=%d events=%d\n", nd, tr.n)
 }
